@@ -8,6 +8,7 @@ import (
 
 	"context"
 
+	"github.com/freeconf/yang/fc"
 	"github.com/freeconf/yang/meta"
 	"github.com/freeconf/yang/val"
 )
@@ -267,9 +268,13 @@ func BuildConstraints(sel *Selection, params map[string][]string) error {
 	}
 	constraints := NewConstraints(sel.Constraints)
 	maxDepth := MaxDepth{MaxDepth: 64}
-	if n, found := findIntParam(params, "depth"); found {
+	if n, found, err := findIntParam(params, "depth"); err != nil {
+		return err
+	} else if found {
 		if n == 0 {
 			return errMaxDepthZeroNotAllowed
+		} else if n < 0 {
+			return fmt.Errorf("%w. depth must be positive, got %d", fc.BadRequestError, n)
 		} else {
 			maxDepth.MaxDepth = n
 		}
@@ -298,7 +303,9 @@ func BuildConstraints(sel *Selection, params map[string][]string) error {
 	}
 	// pointer: the count has to survive from one container to the next
 	maxNode := &MaxNode{Max: 10000}
-	if n, found := findIntParam(params, "fc.max-node-count"); found {
+	if n, found, err := findIntParam(params, "fc.max-node-count"); err != nil {
+		return err
+	} else if found {
 		maxNode.Max = n
 	}
 	constraints.AddConstraint("fc.max-node-count", 10, 60, maxNode)
@@ -429,13 +436,17 @@ func (sel *Selection) Delete() (err error) {
 	return
 }
 
-func findIntParam(params map[string][]string, param string) (int, bool) {
+// findIntParam reports a parameter that is present but not a number as an
+// error instead of silently answering as if it had not been given
+func findIntParam(params map[string][]string, param string) (int, bool, error) {
 	if v, found := params[param]; found {
-		if n, err := strconv.Atoi(v[0]); err == nil {
-			return n, true
+		n, err := strconv.Atoi(v[0])
+		if err != nil {
+			return 0, false, fmt.Errorf("%w. invalid value '%s' for %s", fc.BadRequestError, v[0], param)
 		}
+		return n, true, nil
 	}
-	return 0, false
+	return 0, false, nil
 }
 
 // InsertInto Copy current node into given node.  If there are any existing containers of list
